@@ -122,6 +122,9 @@ func (eng *Engine) buildVCWith(fn *ssa.Function, con *Contract, key string) (vc 
 		for _, cs := range vc.con.Steps {
 			all = append(all, cs...)
 		}
+		for _, cs := range vc.con.ExitSteps {
+			all = append(all, cs...)
+		}
 		for _, c := range all {
 			walk(c.Expr)
 		}
